@@ -4,6 +4,7 @@ import Plenc.World
 import Plenc.Alias
 import Plenc.Descriptor
 import Plenc.JSONAny
+import Plenc.Plenctag
 import Plenc.JSONOut
 import Plenc.Intern
 /-
@@ -96,6 +97,21 @@ def showJRT (v : JSONAny.JVal) : String :=
   | .ok r => showJV r
   | .err => "err" | .panic => "panic" | .hang => "hang"
 
+def parseTTField : Sexp → Option Plenctag.Field
+  | .list [.atom "fd", .list (.atom "n" :: names), .atom emb, tag] => do
+      let names ← names.mapM fun n => match n with | .atom h => parseHexStr h | _ => none
+      let emb ← parseHexStr emb
+      let rawTag ← match tag with
+        | .atom "none" => some none
+        | .atom h => (parseHexStr h).map some
+        | _ => none
+      pure { names := names, embeddedName := emb, rawTag := rawTag }
+  | _ => none
+
+def showTTField (f : Plenctag.Field) : String :=
+  "(fd (n" ++ String.join (f.names.map fun n => " " ++ hexOfStr n) ++ ") " ++
+    (match f.rawTag with | none => "none" | some t => hexOfStr t) ++ ")"
+
 /-- one op of a `world` script against the multi-instance model (Plenc/World.lean). -/
 def worldOp (w : World.World) (o : Sexp) : World.World × String :=
   let idx (a : String) : Nat := a.toNat?.getD 999
@@ -143,6 +159,37 @@ def runOp (s : Sexp) : String :=
   -- schedule is "every goroutine gets what it gets alone" (C07.use_never_sees_incomplete,
   -- result_agrees_with_sequential): the implementation must answer the same
   | .list (.atom "sched" :: _) => "same"
+  -- C19 concurrent: (internsched (reqs (xA…)…) (schedule…)): by C19.conc_finished every
+  -- goroutine's results are its requests, under every schedule
+  | .list [.atom "internsched", .list (.atom "reqs" :: ths), _] =>
+    let parseThread : Sexp → Option (List Bytes) := fun th =>
+      match th with
+      | Sexp.list ds => ds.mapM (fun d => match d with | Sexp.atom h => parseHex h | _ => none)
+      | _ => none
+    match ths.mapM parseThread with
+    | some reqs =>
+      -- run the model's own machine sequentially (thread after thread) as the reference result
+      let st := Intern.init reqs
+      let fin : Intern.State := (List.range reqs.length).foldl (fun s i => Intern.runReads (reqs.getD i []).length s i) st
+      let rs : List (List Bytes) := fin.results
+      String.intercalate " | " (rs.map fun (r : List Bytes) => String.intercalate "," (r.map hexOf))
+    | none => "bad-op"
+  -- C20: (tagtool J S P (st (fd (n names…) xEMB TAG)…)…)
+  | .list (.atom "tagtool" :: .atom j :: .atom sq :: .atom pr :: structs) =>
+    match structs.mapM (fun st => match st with
+        | .list (.atom "st" :: fds) => fds.mapM parseTTField
+        | _ => none) with
+    | some sts =>
+      let fl : Plenctag.Flags := { json := j == "1", sql := sq == "1", priv := pr == "1" }
+      -- the harness names an embedded field by its type expression; the tool uses the type's name
+      let sts := sts.map fun fs => fs.map fun f =>
+        { f with embeddedName := (f.embeddedName.dropWhile (· == '*')).toString }
+      (match Plenctag.rewriteFileX fl sts with
+       | .ok out => "ok " ++ String.intercalate " " (out.map fun fs =>
+           "(st" ++ String.join (fs.map fun f => " " ++ showTTField f) ++ ")")
+       | .err _ => "err"
+       | .panic => "panic" | .hang => "hang" | .unsupported => "unsupported")
+    | none => "bad-op"
   -- C17: (world OP…)
   | .list (.atom "world" :: ops) =>
     let (_, outs) := ops.foldl (fun (acc : World.World × List String) o =>
